@@ -291,9 +291,73 @@ def families(tier):
                            ('script', 'a', 'e', 1, [('drop', 'b')]),
                            ('script', 'b', 'e', 1, [('drop', 'a')]),
                            ('dispatch', 'e', (7,)), ('dispatch', 'e', (8,))]
+    # ... also when the event was deferred and is released by enabling
+    yield 'C10', H2 + [('add', 'a'), ('add', 'b'),
+                       ('script', 'a', 'e', 1, [('drop', 'b')]),
+                       ('script', 'b', 'e', 1, [('drop', 'a')]),
+                       ('disable',), ('dispatch', 'e', (7,)), ('enable',), ('dispatch', 'e', (8,))]
     yield 'C10', H2 + [('add', 'a'), ('add', 'b'), ('script', 'a', 'e', 1, [('remove', 'b')]),
                        ('script', 'b', 'e', 1, [('remove', 'a')]), ('dispatch', 'e', (1,)),
                        ('dispatch', 'e', (2,))]
+
+
+def decorator_scenarios(skip):
+    """event_handler hierarchies: inherited mappings extended/overridden by the
+    subclass, bases unaltered, nothing else called."""
+    import desper
+    out = []
+    log = []
+
+    def mk(name, bases, events=(), mappings=None, methods=('x', 'y', 'z', 'alt')):
+        ns = {}
+        for mname in methods:
+            ns[mname] = (lambda mname: lambda self, *a: log.append((type(self).__name__, mname, a)))(mname)
+        cls = type(name, bases, ns)
+        if events or mappings:
+            cls = desper.event_handler(*events, **(mappings or {}))(cls)
+        return cls
+    for sub_events, sub_map in ((('y',), None), ((), {'y': 'alt'}), (('y',), {'x': 'alt'}), (('y', 'z'), None)):
+        del log[:]
+        Base = mk('Base', (), ('x',))
+        before = dict(Base.__events__)
+        Sub = mk('Sub', (Base,), sub_events, sub_map)
+        Sib = mk('Sib', (Base,))
+        if dict(Base.__events__) != before:
+            out.append(('C03', 'decorating a subclass altered the base mapping: %r -> %r' % (before, dict(Base.__events__)), 'decorator-alters-base'))
+            continue
+        exp = dict(before)
+        exp.update({e: e for e in sub_events})
+        exp.update(sub_map or {})
+        if dict(Sub.__events__) != exp:
+            out.append(('C03', 'subclass mapping %r, expected %r' % (dict(Sub.__events__), exp), 'decorator-mapping'))
+            continue
+        d = desper.EventDispatcher()
+        b, s2, sib = Base(), Sub(), Sib()
+        for h in (b, s2, sib):
+            d.add_handler(h)
+        for ev in ('x', 'y', 'z'):
+            d.dispatch(ev, 1)
+        got = sorted(log)
+        want = []
+        for inst, mp in ((b, before), (s2, exp), (sib, before)):
+            for ev in ('x', 'y', 'z'):
+                if ev in mp:
+                    want.append((type(inst).__name__, mp[ev], (1,)))
+        if got != sorted(want):
+            out.append(('C03', 'deliveries %r, expected %r' % (got, sorted(want)), 'decorator-delivery'))
+    # several handler bases (known finding D10)
+    if 'C03:multi-base-inherit' not in skip:
+        del log[:]
+        A = mk('A', (), ('x',))
+        B = mk('B', (), ('y',))
+        C = mk('C', (A, B))
+        d = desper.EventDispatcher()
+        c = C()
+        d.add_handler(c)
+        d.dispatch('y', 1)
+        if ('C', 'y', (1,)) not in log:
+            out.append(('C03', "class C(A, B) of two handler bases: C.__events__ == %r, event 'y' mapped by B never reaches a registered C()" % (dict(C.__events__),), 'multi-base-inherit'))
+    return out
 
 
 def judge(fam, history, obs):
@@ -322,6 +386,20 @@ def main():
                           'history': {'ops': hist}, 'observed': r and r[1]}, default=str))
         return
     tried = 0
+    skip = set(req.get('skip_signatures') or [])
+    want = req.get('want_signature')
+    if pid == 'C03' or want:
+        for v in decorator_scenarios(skip if not want else set()):
+            sig = '%s:%s' % (v[0], v[2])
+            if sig in skip or (want and sig != want):
+                continue
+            print(json.dumps({'status': 'reproduced', 'history': {'scenario': 'event_handler class hierarchy'},
+                              'observed': v[1], 'violates': v[0], 'found_by': 'native bounded search',
+                              'signature': sig}))
+            return
+    if want:
+        print(json.dumps({'status': 'not-found', 'tried': 0}))
+        return
     for fam, hist in families(req.get('tier', 'quick')):
         if pid and fam != pid and not (pid == 'C04' and fam == 'C10') and not (
                 pid == 'C10' and fam in ('C03',) and False):
